@@ -528,6 +528,15 @@ class Check(PropertyCheck):
         self.exhaustive = False
         return cases
 
+    def search_cases(self):
+        """Wider stream for the failing-input search when a tie is broken: a seeded sample of the thorough scope."""
+        if self.tier != 'quick':
+            return []
+        other = type(self)('thorough', self.seed + 1)
+        cs = other.cases()
+        other.rng.shuffle(cs)
+        return cs[:4000]
+
     def rule(self):
         return (
             'move: (a) ALL source x destination tuples of length <= 2 over [-rank-1, rank] (and the int forms) on one '
